@@ -896,7 +896,7 @@ fn gen_sci(ctx: &Ctx, sink: &mut dyn FnMut(String)) {
         }
     }
     // every double nearest to a power of ten, and its neighbours
-    for e in -323..=308 {
+    for e in -323i32..=308 {
         let p: f64 = format!("1e{e}").parse().unwrap();
         let code = SCI_CODES[((e + 323) as usize) % SCI_CODES.len()];
         sink(req_fmt(p, "0.00E+00", "en"));
@@ -917,7 +917,11 @@ fn gen_sci(ctx: &Ctx, sink: &mut dyn FnMut(String)) {
                 let e = r.range(-320, 306);
                 format!("9.{}{}e{}", "9".repeat(nines), r.pick(&["5", "4", "6", "49", "51", "95"]), e).parse::<f64>().unwrap()
             }
-            1 => f64::from_bits(1 + r.below(1 << (1 + r.below(52)))), // subnormals
+            1 => {
+                // subnormals
+                let sh = 1 + r.below(52);
+                f64::from_bits(1 + r.below(1u64 << sh))
+            }
             2 => {
                 // few-digit mantissas at every magnitude
                 let e = r.range(-323, 308);
@@ -928,7 +932,8 @@ fn gen_sci(ctx: &Ctx, sink: &mut dyn FnMut(String)) {
         let x = if x.is_finite() { x } else { 1.0 };
         let x = if r.chance(1, 5) { -x } else { x };
         let code: &str = *r.pick(SCI_CODES);
-        sink(req_fmt(x, code, r.pick(&locs)));
+        let l: &String = r.pick(&locs);
+        sink(req_fmt(x, code, l));
     }
 }
 
